@@ -74,7 +74,8 @@ PROPS = {
     "C11": dict(theorems=["Props/C11.v"], parts=[
         dict(kind="macro", profile="C11", preds="inv,limit,mem,ttl", mask="ret,keys,vals,born", quick=400, thorough=10000)]),
     "C12": dict(theorems=["Props/C12.v"], parts=[
-        dict(kind="macro", profile="C12", preds="tags,frame", mask="counts,keys,qset", quick=400, thorough=10000)]),
+        dict(kind="macro", profile="C12", preds="tags,frame", mask="counts,keys,qset", quick=400, thorough=10000),
+        dict(kind="sched", mode="inval", quick=40, thorough=400)]),
     "C13": dict(theorems=["Props/C13.v"], parts=[
         dict(kind="macro", profile="C13", preds="frame", mask="counts,keys,queue", quick=400, thorough=10000)]),
     "C14": dict(theorems=["Props/C14.v"], parts=[
@@ -82,6 +83,7 @@ PROPS = {
         dict(kind="sched", mode="sharing", quick=120, thorough=3000)]),
     "C17": dict(theorems=["parts/locks/coq|CLL|Props_C17.v"], parts=[
         dict(kind="locks"),
+        dict(kind="macro", profile="C17", preds="", mask="none", quick=300, thorough=8000, blocked_is_failure=True),
         dict(kind="sched", mode="deadlock", quick=500, thorough=0)]),
     "C18": dict(theorems=["Props/C18.v"], parts=[
         dict(kind="sched", mode="consistency", quick=700, thorough=0)]),
@@ -92,7 +94,7 @@ PROPS = {
         dict(kind="macro", profile="C19", preds="pure,limit,ttl,order,score,err,cif,inv,stats,tags,frame", quick=400, thorough=10000, panic_is_failure=True)]),
     "C16": dict(theorems=["Props/C16.v"], parts=[
         dict(kind="core", profile="C16", mask="", preds="", quick=1200, thorough=60000, panic_is_failure=True),
-        dict(kind="macro", profile="C16", preds="", mask="none", quick=400, thorough=10000, panic_is_failure=True)]),
+        dict(kind="macro", profile="C16", preds="", mask="none", quick=400, thorough=10000, panic_is_failure=True, blocked_is_failure=True)]),
     "C15": dict(theorems=["Props/C15.v"], parts=[
         dict(kind="core", profile="C15", mask="out,stats", preds="c15", quick=Q, thorough=T),
         dict(kind="macro", profile="C15", preds="stats", mask="ret,stats", quick=300, thorough=8000),
@@ -528,6 +530,14 @@ def part_macro(run, part):
                 run.add_violation("prop", what, "\n".join(small) + "\n# functions: " + ",".join("f" + x for x in fns),
                                   True, "%s %s" % (p, detail[:80]))
                 reported += 1
+    if part.get("panic_is_failure") or part.get("blocked_is_failure"):
+        for cid, v in sorted(verdicts.items()):
+            if v.startswith("BLOCKED") and reported < 3:
+                # a sequential history in which an operation never returns: the case is the failing input
+                small = shrink_macro_case(cases[cid], preds, ("V", "BLOCKED"), run.pid + "_shrink", mask)
+                run.add_violation("prop", "an operation of case %s never returned (the harness gave it 4 s and stopped the process)" % cid,
+                                  "\n".join(small), True, "blocked " + cid)
+                reported += 1
     if part.get("panic_is_failure"):
         for cid, v in sorted(verdicts.items()):
             if (v.startswith("PANIC") or v.startswith("CRASH")) and reported < 3:
@@ -672,6 +682,8 @@ def check_sched_case(lines, table):
             # statistics are exact under concurrency: hits + misses = lookups performed
             if t[2] != "none" and int(t[2]) + int(t[3]) != int(t[4]):
                 problems.append("STATS f%s: hits %s + misses %s != %s lookups performed by concurrent callers" % (t[1], t[2], t[3], t[4]))
+        elif t[0] == "BOP":
+            b_op = t[1:]
         elif t[0] in ("RA", "RB") and head[1].startswith("p-"):
             # overlapping lookups of a key that is stored and not removed: both must be served
             if "exec=1" in l:
@@ -739,6 +751,24 @@ def check_sched_case(lines, table):
                 for e in st:
                     if int(e[0]) >= 0 and int(e[1]) != expect(wf, int(e[0])):
                         problems.append("VALUE f%d stores enc %s under key %s, the function's value is %d" % (wf, e[1], e[0], expect(wf, int(e[0]))))
+    if head[1].startswith("e-"):
+        # B ran while A was parked inside its store; if B is a whole-cache invalidation, then once everything has
+        # returned no entry stored BEFORE B's call (the prefill) may be left
+        b_kind = b_op[:1]
+        prefill = [l.split()[3] for l in lines if l.startswith("P call")]
+        # ... provided the invalidation says it reached a cache (true / a count >= 1; a cache without tag, event or
+        # dependency registers no clear callback, invalidate_cache then returns false and clears nothing)
+        rb = [l for l in lines if l.startswith("RB ")]
+        reached = bool(rb) and (" bool 1" in rb[0] or re.search(r" count [1-9]", rb[0]) is not None)
+        if b_kind and b_kind[0] in ("tag", "event", "dep", "invc") and reached:
+            for l in lines:
+                if l.startswith("W "):
+                    parts = [x.strip() for x in l[2:].split("|")]
+                    keys = [] if parts[2] == "-" else [e.split(":")[0] for e in parts[2].split(";")]
+                    left = [k for k in prefill if k in keys]
+                    if left:
+                        problems.append("STALE f%s: the invalidation (%s) has returned but entries stored before it are still cached: keys %s"
+                                        % (parts[0], " ".join(b_op), left))
     for l in ds_probes[-2:]:
         if "exec=1" in l:
             problems.append("MISS f%d: after two overlapping first calls for one key, a key that was stored is not served although the cache "
@@ -826,12 +856,15 @@ def part_sched(run, part):
             mine = [p for p in problems if p.startswith("DEADLOCK") or p.startswith("NORETURN")]
         elif want == "sharing":
             mine = [p for p in problems if p.startswith("MISS")]
+        elif want == "inval":
+            mine = [p for p in problems if p.startswith("STALE")]
         elif want == "stats":
             mine = [p for p in problems if p.startswith("STATS")]
         else:
             # consistency (C18): values, tracking, limits, panics, calls that never return; needless
             # re-executions (MISS) and statistics belong to C03/C14 and C15
-            mine = [p for p in problems if not p.startswith(("DEADLOCK", "MISS", "STATS"))]
+            # (a deadlock is also a call that does not return "the function's value for its own arguments")
+            mine = [p for p in problems if not p.startswith(("MISS", "STATS", "STALE"))]
         if dl:
             n_dead += 1
         if mine:
@@ -940,6 +973,16 @@ def run_replay(run, spec, path):
         if not build_harness(run, "vh-macro"):
             return
         sf, of = BUILD + "/sched_replay.txt", BUILD + "/sched_replay_obs.txt"
+        # replay files name every schedule CCASE; the id prefix tells the family (and so the harness mode)
+        lines_ = text.split("\n")
+        for i_, l_ in enumerate(lines_):
+            t_ = l_.split()
+            if len(t_) > 1 and t_[0] == "CCASE":
+                if t_[1].startswith(("p-", "e-")):
+                    lines_[i_] = l_.replace("CCASE", "PCASE", 1)
+                elif t_[1].startswith("st-"):
+                    lines_[i_] = l_.replace("CCASE", "STRESS", 1)
+        text = "\n".join(lines_)
         open(sf, "w").write(text)
         sh("%s/target/debug/vh-macro run %s %s" % (BUILD, sf, of), timeout=600)
         table = corpus_table()
